@@ -647,6 +647,7 @@ pub fn hdr_sweep(d: &mut D) {
         d.new_ctx(22, src as u8, &[], &[(0, [0, 0, 0, 1], [0, 0])]);
         let dsts: Vec<u64> = if srcs.contains(&src) { (0..=255).collect() } else { vec![0, 0x34, 0x7F, 0x80, 0xFF, src] };
         for dst in dsts {
+            d.ex(json!({"op":"gen_hdr","ctx":22,"half":if dst % 2 == 0 { "req" } else { "resp" },"dst":dst}));
             for which in 0..6 {
                 k += 1;
                 match which {
